@@ -54,8 +54,8 @@ def cmdtail(cmds, optional=False):
     return {"kind": "cmd", "optional": optional, "cmds": list(cmds)}
 
 
-def level(named, tail=NOTAIL, version=False, vtag="0"):
-    return {"named": list(named), "tail": tail, "version": version, "vtag": vtag}
+def level(named, tail=NOTAIL, version=False, vtag="0", ftu=False):
+    return {"named": list(named), "tail": tail, "version": version, "vtag": vtag, "ftu": ftu}
 
 
 def alpha(words=("1", "x"), spells=("sep", "eq"), extras=("dd", "help", "unk"), maxlen=3,
@@ -180,9 +180,9 @@ def conv_family(seed, n_defs, max_named=3, maxlen=3, budget=6000, extras=("dd", 
             t = tails_cycle[k % len(tails_cycle)]
             k += 1
             if t < len(POS_TAILS):
-                lvl = level(named, POS_TAILS[t], version=rnd.random() < 0.3)
+                lvl = level(named, POS_TAILS[t], version=rnd.random() < 0.3, ftu=rnd.random() < 0.25)
             else:
-                lvl = level(named, cmd_tail_variant(t - len(POS_TAILS), rnd), version=rnd.random() < 0.5)
+                lvl = level(named, cmd_tail_variant(t - len(POS_TAILS), rnd), version=rnd.random() < 0.5, ftu=rnd.random() < 0.3)
             spells = rnd.choice([("sep", "eq"), ("sep", "glued"), ("sep", "eq", "glued"), ("eq",)])
             d = mkdef(f"conv{seed}_{len(defs)}", lvl, maxlen=maxlen, spells=spells, extras=extras,
                       clusters=rnd.random() < 0.5, words=rnd.choice([("1", "x"), ("1", "2"), ("1",)]))
@@ -194,7 +194,7 @@ def conv_family(seed, n_defs, max_named=3, maxlen=3, budget=6000, extras=("dd", 
 
 def cmd_tail_variant(v, rnd):
     inner_a = level([sw("ca", "-x")], postail(pos("cp", "opt")))
-    inner_b = level([ar("cb", "one", "int", "-y")], NOTAIL)
+    inner_b = level([ar("cb", "one", "int", "-y")], NOTAIL, ftu=rnd.random() < 0.5)
     deep = level([sw("dd1", "-z")], NOTAIL)
     inner_c = level([ar("cc", "opt", "str", "--cc")], cmdtail([cmd("deep", deep)]), version=True, vtag="c")
     if v == 0:
@@ -250,7 +250,7 @@ def cmd_tree(rnd, depth, letters, prefix="L", max_named=2, max_cmds=2, cmd_names
     if depth == 0:
         tails = [NOTAIL, postail(pos(prefix + "p", "opt")), postail(pos(prefix + "p", "many")),
                  postail(pos(prefix + "p", "one"), pos(prefix + "q", "opt", vt="int"))]
-        return level(named, rnd.choice(tails), version=rnd.random() < 0.3, vtag=prefix)
+        return level(named, rnd.choice(tails), version=rnd.random() < 0.3, vtag=prefix, ftu=rnd.random() < 0.25)
     cmds = []
     for c in range(rnd.randint(1, max_cmds)):
         nm = next(cmd_names)
@@ -262,7 +262,8 @@ def cmd_tree(rnd, depth, letters, prefix="L", max_named=2, max_cmds=2, cmd_names
     seen = set()
     for c in cmds:
         c["shorts"] = [x for x in c["shorts"] if x not in seen and not seen.add(x)]
-    return level(named, cmdtail(cmds, optional=rnd.random() < 0.3), version=rnd.random() < 0.3, vtag=prefix)
+    return level(named, cmdtail(cmds, optional=rnd.random() < 0.3), version=rnd.random() < 0.3, vtag=prefix,
+                 ftu=rnd.random() < 0.25)
 
 
 def cmd_family(seed, n, depth=2, maxlen=4, budget=8000, extras=("help", "unk", "dd")):
